@@ -3,8 +3,11 @@
 // C14 — no two in-progress changes ever operate on the same snap (conflict detection at request time).
 //
 // Explicit-state exploration of the real request functions (snapstate.Install/Update/Revert/Remove/Enable/
-// Disable/Switch/Alias/DisableAllAliases/InstallMany/UpdateMany/RemoveMany, ifacestate.Connect/Disconnect,
-// snapstate.CheckChangeConflictRunExclusively) on the package's own fixture (fake store, fake backend).
+// Disable/Switch/Alias/DisableAllAliases/InstallMany/UpdateMany (named and of all snaps)/AutoRefresh/RemoveMany,
+// ifacestate.Connect/Disconnect, snapstate.CheckChangeConflictRunExclusively) on the package's own fixture (fake
+// store, fake backend). Every refresh request is also issued in "scenes" in which the snap-declarations list other
+// automatic aliases than the state records (see c14Scenes), so that refresh-aliases / prune-auto-aliases tasks for
+// snaps that are not themselves refreshed are part of the alphabet.
 // Changes never run: after an accepted request the harness does what the API layer does (a new change of the
 // API's kind, all returned task sets added to it) and "progress" is an explicit event that rewrites the task
 // statuses of one unready change (half done / being undone / waiting / finished / failed).
@@ -15,6 +18,9 @@
 //   - after every accepted request, for every snap, at most one unready non-exempt change has a task that
 //     affects it; affected snaps are computed twice, with snapstate.SnapsAffectedByTask and with the harness's
 //     own decoding of the raw task data (snap-setup / snap-setup-task / plug+slot refs / hook-setup / snaps);
+//   - no single task of a newly accepted change refers (by either decoding) to a snap that an unready non-exempt
+//     change was operating on, and the snap names the request function reports (updated/installed/removed) do not
+//     contain such a snap;
 //   - a request on a snap that an unready non-exempt change affects is rejected, with *ChangeConflictError,
 //     and creates nothing observable (same changes, same tasks linked to changes, same "snaps" entry);
 //   - while an exclusive change (remodel, transition-ubuntu-core, transition-to-snapd-snap,
@@ -56,11 +62,11 @@ type verifC14Suite struct{}
 var _ = Suite(&verifC14Suite{})
 
 const (
-	c14A     = "some-snap"       // active, revisions [5 7], current 7, app cmd1, plug "plug", manual alias alias0
-	c14B     = "some-other-snap" // active, revision [3], slot "slot"
+	c14A     = "some-snap"       // active, revisions [5 7], current 7, app cmd1, plug "plug", manual alias alias0, automatic alias a-auto
+	c14B     = "some-other-snap" // active, revision [3], slot "slot", automatic alias b-auto
 	c14C     = "snap-c"          // not installed
 	c14D     = "snap-d"          // not installed (second target of install-many)
-	c14I     = "inactive-snap"   // installed, disabled
+	c14I     = "inactive-snap"   // installed, disabled, automatic alias i-auto, store snap without a newer revision
 	c14Snapd = "snapd"           // active, revisions [1 2] = versions 2.51 2.52, current 2
 )
 
@@ -195,21 +201,16 @@ type c14SceneDef struct {
 	Thorough bool
 }
 
-var c14SceneNames = []string{"new", "drop", "move", "new/B-current", "drop/B-current"}
+var c14SceneNames = []string{"delta", "move"}
 
 var c14Scenes = map[string]c14SceneDef{
-	// every snap's declaration lists one more automatic alias
-	"new": {Decl: map[string]map[string]string{
-		c14A: {"a-auto": "cmd1", "a-new": "cmd1"}, c14B: {"b-auto": "cmd1", "b-new": "cmd1"}, c14I: {"i-auto": "cmd1", "i-new": "cmd1"}},
+	// every snap's declaration lists a new automatic alias and no longer lists the recorded one (a snap that is not
+	// refreshed itself gets a prune-auto-aliases and a refresh-aliases task); the store has nothing newer for A
+	"delta": {Decl: map[string]map[string]string{c14A: {"a-new": "cmd1"}, c14B: {"b-new": "cmd1"}, c14I: {"i-new": "cmd1"}},
 		NoUpdate: []string{c14A}},
-	// every snap's declaration dropped the automatic alias
-	"drop": {Decl: map[string]map[string]string{c14A: {}, c14B: {}, c14I: {}}, NoUpdate: []string{c14A}},
-	// the automatic aliases moved round: A's to B, B's to I, I's to A (every snap is source and target of a transfer)
+	// the automatic aliases moved round: A's to B, B's to I, I's to A (every snap is source and target of a transfer:
+	// the refresh of the target includes a prune-auto-aliases task for the source)
 	"move": {Decl: map[string]map[string]string{c14A: {"i-auto": "cmd1"}, c14B: {"a-auto": "cmd1"}, c14I: {"b-auto": "cmd1"}}},
-	"new/B-current": {Decl: map[string]map[string]string{
-		c14A: {"a-auto": "cmd1", "a-new": "cmd1"}, c14B: {"b-auto": "cmd1", "b-new": "cmd1"}, c14I: {"i-auto": "cmd1", "i-new": "cmd1"}},
-		NoUpdate: []string{c14B}, Thorough: true},
-	"drop/B-current": {Decl: map[string]map[string]string{c14A: {}, c14B: {}, c14I: {}}, NoUpdate: []string{c14B}, Thorough: true},
 }
 
 // c14AliasDelta is the harness's own reading of "automatic-alias delta" of a snap in a scene: aliases its
@@ -331,7 +332,7 @@ type c14World struct {
 	store    *c14Store
 	changes  []c14Chg
 	menu     map[string]c14Op
-	requests int // requests issued on this fixture
+	requests int                          // requests issued on this fixture
 	decl     map[string]map[string]string // what the snap-declarations say right now (read through snapstate.AutoAliases)
 	preDl    []*state.TaskSet             // pre-download task sets returned by the last auto-refresh
 	// set by a stale-scenario callback
@@ -1029,21 +1030,21 @@ type c14Problem struct {
 }
 
 type c14Outcome struct {
-	Step      string      `json:"step"`
-	Before    c14Obs      `json:"before"`
-	Expect    string      `json:"expect"` // accept | reject:<class>
-	Got       string      `json:"got"`    // accepted | accepted-empty | rejected | event | pre
-	Err       string      `json:"err,omitempty"`
-	ErrType   string      `json:"err_type,omitempty"`
-	After     c14Obs      `json:"after"`
-	Mismatch  string      `json:"model_mismatch,omitempty"` // disagreement with the model that is not a violation of the statement
-	Problems  []c14Problem `json:"problems,omitempty"`
-	Unlinked  int         `json:"unlinked_tasks_left,omitempty"`
-	Reported  []string    `json:"reported_snaps,omitempty"`  // the names the request function returned
-	NewTasks  map[string][]string `json:"new_tasks,omitempty"` // task kind -> snaps the tasks of the new change refer to
-	PreDownloads int      `json:"pre_download_tasksets,omitempty"`
-	TasksDropped int      `json:"tasks_not_put_in_a_change,omitempty"` // auto-refresh with an empty list of updated snaps
-	NonTrivial bool       `json:"nontrivial,omitempty"`
+	Step         string              `json:"step"`
+	Before       c14Obs              `json:"before"`
+	Expect       string              `json:"expect"` // accept | reject:<class>
+	Got          string              `json:"got"`    // accepted | accepted-empty | rejected | event | pre
+	Err          string              `json:"err,omitempty"`
+	ErrType      string              `json:"err_type,omitempty"`
+	After        c14Obs              `json:"after"`
+	Mismatch     string              `json:"model_mismatch,omitempty"` // disagreement with the model that is not a violation of the statement
+	Problems     []c14Problem        `json:"problems,omitempty"`
+	Unlinked     int                 `json:"unlinked_tasks_left,omitempty"`
+	Reported     []string            `json:"reported_snaps,omitempty"` // the names the request function returned
+	NewTasks     map[string][]string `json:"new_tasks,omitempty"`      // task kind -> snaps the tasks of the new change refer to
+	PreDownloads int                 `json:"pre_download_tasksets,omitempty"`
+	TasksDropped int                 `json:"tasks_not_put_in_a_change,omitempty"` // auto-refresh with an empty list of updated snaps
+	NonTrivial   bool                `json:"nontrivial,omitempty"`
 }
 
 func c14Intersects(a, b []string) (string, bool) {
@@ -1310,6 +1311,10 @@ func (w *c14World) apply(s c14Step) c14Outcome {
 	// every single task of the new change: none may refer (snap-setup, snap-setup-task, plug/slot, hook-setup, snaps;
 	// by either decoding) to a snap that another unfinished non-exempt change was operating on when the request was decided
 	out.NewTasks = map[string][]string{}
+	type offence struct {
+		kind, summary, snap string
+	}
+	var offences []offence
 	for _, t := range chg.Tasks() {
 		impl, _ := snapstate.SnapsAffectedByTask(t)
 		refs := map[string]bool{}
@@ -1320,12 +1325,29 @@ func (w *c14World) apply(s c14Step) c14Outcome {
 			refs[n] = true
 		}
 		for _, n := range c14Sorted(refs) {
-			out.NewTasks[t.Kind()] = append(out.NewTasks[t.Kind()], n)
-			if c := busy[n]; c != nil && len(out.Problems) == 0 {
-				problem(fmt.Sprintf("task-on-busy-snap|%s|%s|%s|while|%s/%s", op.Name, t.Kind(), n, w.opOf(c.ID), c14Describe(c)),
-					"%s was accepted and its task %q (%s) refers to snap %q while change %s (%s, %s, from %s) operating on %v is in progress", op.Name, t.Kind(), t.Summary(), n, c.ID, c.Kind, c.Status, w.opOf(c.ID), c.Own)
+			if _, have := c14Intersects([]string{n}, out.NewTasks[t.Kind()]); !have {
+				out.NewTasks[t.Kind()] = append(out.NewTasks[t.Kind()], n)
+			}
+			if busy[n] != nil {
+				offences = append(offences, offence{t.Kind(), t.Summary(), n})
 			}
 		}
+	}
+	for k := range out.NewTasks {
+		sort.Strings(out.NewTasks[k])
+	}
+	// (tasks are created in map order by some request functions: report the same offence every time)
+	sort.Slice(offences, func(i, j int) bool {
+		if offences[i].snap != offences[j].snap {
+			return offences[i].snap < offences[j].snap
+		}
+		return offences[i].kind < offences[j].kind
+	})
+	if len(offences) > 0 && len(out.Problems) == 0 {
+		o := offences[0]
+		c := busy[o.snap]
+		problem(fmt.Sprintf("task-on-busy-snap|%s|%s|%s|while|%s/%s", op.Name, o.kind, o.snap, w.opOf(c.ID), c14Describe(c)),
+			"%s was accepted and its task %q (%s) refers to snap %q while change %s (%s, %s, from %s) operating on %v is in progress (%d such tasks)", op.Name, o.kind, o.summary, o.snap, c.ID, c.Kind, c.Status, w.opOf(c.ID), c.Own, len(offences))
 	}
 	checkReported()
 	// the invariant of the statement, on the state itself (covers requests whose tasks touch more than their targets,
@@ -1411,19 +1433,23 @@ func (st *c14State) after(idx int, to string) *c14State {
 }
 
 type c14Explorer struct {
-	r        *eng.Run
-	c        *C
-	ops      []c14Op
-	menu     map[string]c14Op
-	events   []string
-	seen     map[string]bool
-	reported map[string]bool
-	count    bool // false while a worker other than worker 0 runs the part every worker runs
-	mmFile   string
-	stopFile string // created by the first worker that confirms a violation: the others stop at their next state
-	capped    bool
-	completed int
-	dir         string
+	r           *eng.Run
+	c           *C
+	ops         []c14Op
+	menu        map[string]c14Op
+	events      []string
+	seen        map[string]bool
+	reported    map[string]bool
+	count       bool // false while a worker other than worker 0 runs the part every worker runs
+	mmFile      string
+	stopFile    string // created by the first worker that confirms a violation: the others stop at their next state
+	leafScenes  bool   // states reached through a request issued in an automatic-alias scene are not expanded
+	tag         string // part of the exploration (prefix of the level records)
+	capped      bool
+	completed   int
+	dir         string // where the workers exchange the states of a level (one directory per part)
+	runDir      string
+	seenLeaf    map[string]bool // keys of states that are not expanded (they do not shadow an expandable state with the same key)
 	barrierWait time.Duration
 }
 
@@ -1507,7 +1533,7 @@ func (x *c14Explorer) step(from *c14State, s c14Step) (*c14State, c14Outcome) {
 	ns := &c14State{Path: np, Key: key, Unready: unready, Snaps: snapsDigest, Requests: from.Requests}
 	if s.K == "req" {
 		ns.Requests++
-		ns.Leaf = x.menu[s.Op].Leaf
+		ns.Leaf = x.menu[s.Op].Leaf || (x.leafScenes && x.menu[s.Op].Scene != "")
 	}
 	if x.count {
 		r.Add("requests_issued_including_replays", int64(nreq))
@@ -1626,11 +1652,16 @@ func (x *c14Explorer) noteMismatch(line string) {
 }
 
 func (x *c14Explorer) newState(ns *c14State) bool {
-	if x.seen[ns.Key] {
+	if x.seen[ns.Key] || (ns.Leaf && x.seenLeaf[ns.Key]) {
 		return false
 	}
-	x.seen[ns.Key] = true
-	if x.count {
+	counted := x.seenLeaf[ns.Key]
+	if ns.Leaf {
+		x.seenLeaf[ns.Key] = true
+	} else {
+		x.seen[ns.Key] = true
+	}
+	if x.count && !counted {
 		x.r.Add("states", 1)
 	}
 	return true
@@ -1704,7 +1735,110 @@ func (x *c14Explorer) exchange(level int, found []*c14State, partial bool) (all 
 	return all, anyPartial
 }
 
-const c14Rule = "breadth-first over request sequences up to the bound (a pre-existing exclusive/exempt change counts as one request), every request of the menu in every state, progress events (half done / being undone / [waiting] / finished / failed, on any unready change) between requests without counting towards the bound; successors by replay on a fresh fixture; states deduplicated on (kind [class of the kind when two or more changes are unready], status [merged when three or more are unready], affected snaps by both decodings, exclusive?) of the unready changes + snap records, level-synchronous across the 16 worker processes (the states found at a level are exchanged and merged before the next level is dealt out); non-trivial = requests issued while at least one change is unready, or with a stale-record callback"
+const c14Rule = "breadth-first over request sequences up to the bound (a pre-existing exclusive/exempt change counts as one request), every request of the menu in every state (every refresh request also in every automatic-alias scene: declarations listing other aliases than the state records), progress events (half done / being undone / [waiting] / finished / failed, on any unready change) between requests without counting towards the bound; successors by replay on a fresh fixture; states deduplicated on (kind [class of the kind when two or more changes are unready], status [merged when three or more are unready], affected snaps by both decodings, exclusive?) of the unready changes + snap records, level-synchronous across the 16 worker processes (the states found at a level are exchanged and merged before the next level is dealt out); thorough tier: first the exploration of the quick tier as it is (3 requests, scene requests in any position), then the thorough menu and events to 4 requests with a scene request only as the last request of a sequence (states reached through a scene request are not expanded and do not shadow expandable states with the same key); non-trivial = requests issued while at least one change is unready, or with a stale-record callback"
+
+// explore runs one breadth-first exploration (x.ops, x.events) from the idle system to the given request depth.
+func (x *c14Explorer) explore(tag string, depth int) {
+	r, c, menu, ops := x.r, x.c, x.menu, x.ops
+	shard, _ := r.ShardIndex()
+	x.tag = tag
+	x.seen, x.seenLeaf = map[string]bool{}, map[string]bool{}
+	x.completed = 0
+	x.dir = filepath.Join(x.runDir, "part-"+tag)
+	if err := os.MkdirAll(x.dir, 0755); err != nil {
+		eng.HarnessError("%v", err)
+	}
+	// what every worker computes identically (merged state lists, event closures) is counted by worker 0 only
+	x.count = shard == 0
+
+	// level 0: the idle system
+	idle := &c14State{}
+	{
+		w := c14New(c, menu)
+		idle.Key, _, idle.Snaps = w.stat()
+		w.close()
+	}
+	x.newState(idle)
+	frontier := []*c14State{idle}
+	for level := 1; level <= depth; level++ {
+		// work items of the level: every request in every state of the frontier; at level 1 also the pre-existing
+		// changes (a pre-existing change counts as one request of the sequence). Dealt round-robin.
+		type item struct {
+			st   *c14State
+			step c14Step
+		}
+		var items []item
+		for _, st := range frontier {
+			if st.Leaf {
+				continue
+			}
+			for _, op := range ops {
+				items = append(items, item{st, c14Step{K: "req", Op: op.Name}})
+			}
+			if level == 1 {
+				for _, k := range c14PreKinds {
+					items = append(items, item{st, c14Step{K: "pre", Op: k}})
+				}
+			}
+		}
+		var found []*c14State
+		local := map[string]bool{}
+		partial := false
+		x.count = true
+		for i, it := range items {
+			if !r.Mine(i) {
+				continue
+			}
+			if x.halt(fmt.Sprintf("request level %d", level)) {
+				partial = true
+				break
+			}
+			ns, out := x.step(it.st, it.step)
+			if level == 1 && it.step.K == "req" {
+				// calibration of the menu: on the idle system every entry is accepted (the stale-record ones refused)
+				op := menu[it.step.Op]
+				want := "accepted"
+				if op.Stale == "mutA" || op.Stale == "setC" || op.Stale == "sneak" {
+					want = "rejected"
+				}
+				if out.Got != want && len(out.Problems) == 0 && out.Mismatch == "" {
+					r.Add("model_mismatches", 1)
+					x.noteMismatch(fmt.Sprintf("menu entry %s is not valid on the idle system: %s %s", op.Name, out.Got, out.Err))
+				}
+			}
+			lk := ns.Key
+			if ns.Leaf {
+				lk += " (leaf)"
+			}
+			if !(x.seen[ns.Key] || (ns.Leaf && x.seenLeaf[ns.Key])) && !local[lk] {
+				local[lk] = true
+				found = append(found, ns)
+			}
+		}
+		x.count = shard == 0
+		all, anyPartial := x.exchange(level, found, partial)
+		var merged []*c14State
+		for _, st := range all {
+			if x.newState(st) {
+				merged = append(merged, st)
+			}
+		}
+		if anyPartial {
+			if !x.capped {
+				x.capped = true
+				r.Cap("incomplete-level", fmt.Sprintf("another worker stopped early in request level %d", level))
+			}
+			break
+		}
+		x.completed = level
+		if level < depth {
+			frontier = x.closure(merged)
+		}
+		if shard == 0 {
+			r.Info(fmt.Sprintf("%slevel_%d", x.tag, level), map[string]int{"requests_and_pre_existing_changes_run": len(items), "new_states_reached_by_requests": len(merged), "new_states_with_event_closure": len(frontier)})
+		}
+	}
+}
 
 func (s *verifC14Suite) TestVerifC14(c *C) {
 	r := eng.Start("C14", "model_checking", 300*time.Second, 14*time.Minute) // quick: ~30 s on 16 idle cores (17.4k fixtures of ~5 ms + 3 requests each); the soft budget leaves room for a loaded machine
@@ -1714,7 +1848,9 @@ func (s *verifC14Suite) TestVerifC14(c *C) {
 		"snap records never change (except in the stale-record leaves): every menu entry is valid on the idle system (checked at depth 1), so every refusal deeper down is a conflict refusal",
 		"hookstate.Manager and ifacestate.Manager are instantiated on the fixture's runner so that hook and connect/disconnect tasks register their affected snaps as in the real overlord",
 		"pre-existing changes of the exclusive and exempt kinds are built by hand (two plain tasks; pre-download: a pre-download-snap task with A's snap-setup; become-operational: a run-hook task of snap A)",
-		"whether an exclusive request (snapd downgrade, remodel, recovery system) may start while other changes are in progress is not part of the statement: not judged, outcomes recorded")
+		"whether an exclusive request (snapd downgrade, remodel, recovery system) may start while other changes are in progress is not part of the statement: not judged, outcomes recorded",
+		"snap-declarations are read through the hook snapstate.AutoAliases, answered from a table of the harness; a refresh request issued '@scene' finds other declarations than the state records (and, in 'delta', a store without a newer revision of A) for the duration of the request only; the recorded aliases never change (nothing runs)",
+		"API layer of AutoRefresh as in launchAutoRefresh: pre-download task sets go to a pre-download change, the refresh task sets to an 'auto-refresh' change unless the list of updated snaps is empty (then no change); API layer of the other requests as in the daemon: one change with all returned task sets")
 	thorough := r.Thorough()
 	ops := c14Menu(thorough)
 	menu := map[string]c14Op{}
@@ -1781,7 +1917,8 @@ func (s *verifC14Suite) TestVerifC14(c *C) {
 	}
 	depth := r.Pick(3, 4)
 	r.Info("bounds", map[string]interface{}{"max_requests_per_sequence": depth, "requests_in_menu": len(ops), "progress_events": x.events,
-		"pre_existing_change_kinds": c14PreKinds, "snaps": []string{c14A, c14B, c14C, c14D, c14I, c14Snapd}})
+		"pre_existing_change_kinds": c14PreKinds, "snaps": []string{c14A, c14B, c14C, c14D, c14I, c14Snapd},
+		"auto_alias_scenes": c14Scenes, "recorded_auto_aliases": c14StateAuto})
 	var names []string
 	for _, o := range ops {
 		names = append(names, o.Name)
@@ -1818,98 +1955,23 @@ func (s *verifC14Suite) TestVerifC14(c *C) {
 		c14Finish(r, c14Rule)
 	}
 	shard, nshards := r.ShardIndex()
-	x.dir = mmDir
+	x.runDir = mmDir
 	x.mmFile = filepath.Join(mmDir, fmt.Sprintf("mismatch-%d.txt", shard))
 	x.stopFile = filepath.Join(mmDir, "violation-found")
 	x.barrierWait = 20 * time.Minute
 	if thorough {
 		x.barrierWait = 40 * time.Minute
 	}
-	// what every worker computes identically (merged state lists, event closures) is counted by worker 0 only
-	x.count = shard == 0
-
-	// level 0: the idle system
-	idle := &c14State{}
-	{
-		w := c14New(c, menu)
-		idle.Key, _, idle.Snaps = w.stat()
-		w.close()
-	}
-	x.newState(idle)
-	frontier := []*c14State{idle}
-	for level := 1; level <= depth; level++ {
-		// work items of the level: every request in every state of the frontier; at level 1 also the pre-existing
-		// changes (a pre-existing change counts as one request of the sequence). Dealt round-robin.
-		type item struct {
-			st   *c14State
-			step c14Step
-		}
-		var items []item
-		for _, st := range frontier {
-			if st.Leaf {
-				continue
-			}
-			for _, op := range ops {
-				items = append(items, item{st, c14Step{K: "req", Op: op.Name}})
-			}
-			if level == 1 {
-				for _, k := range c14PreKinds {
-					items = append(items, item{st, c14Step{K: "pre", Op: k}})
-				}
-			}
-		}
-		var found []*c14State
-		local := map[string]bool{}
-		partial := false
-		x.count = true
-		for i, it := range items {
-			if !r.Mine(i) {
-				continue
-			}
-			if x.halt(fmt.Sprintf("request level %d", level)) {
-				partial = true
-				break
-			}
-			ns, out := x.step(it.st, it.step)
-			if level == 1 && it.step.K == "req" {
-				// calibration of the menu: on the idle system every entry is accepted (the stale-record ones refused)
-				op := menu[it.step.Op]
-				want := "accepted"
-				if op.Stale == "mutA" || op.Stale == "setC" || op.Stale == "sneak" {
-					want = "rejected"
-				}
-				if out.Got != want && len(out.Problems) == 0 && out.Mismatch == "" {
-					r.Add("model_mismatches", 1)
-					x.noteMismatch(fmt.Sprintf("menu entry %s is not valid on the idle system: %s %s", op.Name, out.Got, out.Err))
-				}
-			}
-			if !x.seen[ns.Key] && !local[ns.Key] {
-				local[ns.Key] = true
-				found = append(found, ns)
-			}
-		}
-		x.count = shard == 0
-		all, anyPartial := x.exchange(level, found, partial)
-		var merged []*c14State
-		for _, st := range all {
-			if x.newState(st) {
-				merged = append(merged, st)
-			}
-		}
-		if anyPartial {
-			if !x.capped {
-				x.capped = true
-				r.Cap("incomplete-level", fmt.Sprintf("another worker stopped early in request level %d", level))
-			}
-			break
-		}
-		x.completed = level
-		if level < depth {
-			frontier = x.closure(merged)
-		}
-		if shard == 0 {
-			r.Info(fmt.Sprintf("level_%d", level), map[string]int{"requests_and_pre_existing_changes_run": len(items), "new_states_reached_by_requests": len(merged), "new_states_with_event_closure": len(frontier)})
-		}
+	if thorough {
+		// part 1: exactly the exploration of the quick tier (scene requests in any position, sequences of <= 3 requests)
+		x.ops, x.events, x.leafScenes = c14Menu(false), []string{"doing", "undoing", "done", "error"}, false
+		x.explore("quickpart_", 3)
+		r.Max("quick_part_max_request_level_completed", int64(x.completed))
+		// part 2: the thorough menu and events to depth 4; a scene request may be the last request of a sequence only
+		x.ops, x.events, x.leafScenes = ops, []string{"doing", "undoing", "wait", "done", "error"}, true
+		x.explore("", depth)
+	} else {
+		x.explore("", depth)
 	}
 	_ = nshards
 	r.Add("fixtures_built", c14Fixtures)
